@@ -518,7 +518,16 @@ def _worker(args):
         for o in ops:
             counts["op_" + o["op"]] += 1
         if rep.get("hang"):
-            V("hang", f"no reply within 30 s to op #{len(results)} {ops[len(results)]['op'] if len(results) < len(ops) else ''}", {"ops": ops[:len(results) + 1][-12:]})
+            # a wall-clock expiry alone is no verdict: the session is repeated alone with four times the budget
+            server.close()
+            rep2 = server.ask("lsp", ops=ops, per_op_ms=120000)
+            if isinstance(rep2, dict) and rep2.get("hang"):
+                V("hang", f"no reply within 120 s (second run, alone) to op #{len(rep2.get('results', []))} {ops[len(results)]['op'] if len(results) < len(ops) else ''}", {"ops": ops[:len(results) + 1][-12:]})
+            else:
+                counts["slow_sessions_repeated"] += 1
+                rep = rep2 if isinstance(rep2, dict) and "results" in rep2 else rep
+                results = rep.get("results", [])
+            server.close()
         for tp in rep.get("thread_panics", []):
             # panics inside catch_unwind of the session thread are already in results; here: analysis threads
             if not any("panic" in r and (r["panic"] or {}).get("msg") == tp["msg"] for r in results):
@@ -666,7 +675,24 @@ def run_stdio(exe, ops, rng, env=None):
     for rid in list(pending):
         m = c.wait_for(lambda m, rid=rid: m.get("id") == rid, 30)
         if m is None:
-            out["problems"].append(("request-unanswered", f"no response to request #{rid} ({ops[pending[rid]]['op']})"))
+            # decide on logical grounds: a server that is gone, or alive but idle (no CPU time consumed while we wait), will never answer
+            if c.p.poll() is not None:
+                out["problems"].append(("request-unanswered", f"no response to request #{rid} ({ops[pending[rid]]['op']}): the server exited with {c.p.returncode}"))
+            else:
+                def ticks():
+                    try:
+                        f = open(f"/proc/{c.p.pid}/stat").read().rsplit(")", 1)[1].split()
+                        return int(f[11]) + int(f[12])
+                    except (OSError, IndexError, ValueError):
+                        return -1
+                t0 = ticks()
+                m = c.wait_for(lambda m, rid=rid: m.get("id") == rid, 20)
+                if m is not None:
+                    continue
+                if ticks() == t0:
+                    out["problems"].append(("request-unanswered", f"no response to request #{rid} ({ops[pending[rid]]['op']}): the server is alive but idle"))
+                else:
+                    out["inconclusive"] = f"request #{rid} unanswered after 50 s while the server is still computing"
             break
     try:
         max_threads = max(max_threads, len(os.listdir(f"/proc/{c.p.pid}/task")))
@@ -745,6 +771,8 @@ def _stdio_worker(args):
         wit = {"ops": [{k: (v if k != "text" else v[:300]) for k, v in o.items()} for o in ops[-14:]], "stderr": res.get("stderr", "")[-600:], "rc": res.get("rc")}
         for sig, what in res["problems"]:
             V("stdio:" + sig, what, wit)
+        if res.get("inconclusive"):
+            counts["stdio_inconclusive_sessions"] += 1
         ndocs = len({o["uri"] for o in ops})
         if res.get("max_threads", 0) > 4 + ndocs:
             V("stdio:thread-leak", f"{res['max_threads']} threads in lelwel-ls with {ndocs} documents", wit)
@@ -813,6 +841,8 @@ def main(tier):
             chk.sample(s, limit=2)
         for v in p["viol"]:
             chk.violation(v["sig"], v["what"], v["witness"])
+    if chk.counters.get("stdio_inconclusive_sessions", 0) > 3:
+        chk.inconclusive_because(f"{chk.counters['stdio_inconclusive_sessions']} stdio sessions ran into the wall-clock watchdog while the server was still computing")
     chk.assumptions = ["requests are only sent for documents that are open at that point of the history (LSP requires that of a client)",
                        "positions: every UTF-16 code unit boundary of every line plus positions past the line end; a position inside a surrogate pair or past the line end is only "
                        "checked for survival and range validity, not for content",
